@@ -106,7 +106,7 @@ LAll(a) == L(UNION {AllOf(o) : o \in Eff(a) \cap DOMAIN Defs}, {})
 LInvert(a) == L(UNION {AllOf(o) : o \in Eff(a) \cap DOMAIN Defs} \ a.items, {})
 \* items moved by n places of VALUE inside their own list
 LShift(a, n) == L({it2 \in UNION {AllOf(it.o) : it \in a.items} :
-                     \E it \in a.items : it2.o = it.o /\ ItemVal(it2) = ItemVal(it) + n}, {})
+                     \E it \in a.items : it2.o = it.o /\ ItemVal(it2) - ItemVal(it) = n}, {})      \* (n may be any 32-bit value)
 \* minimum / maximum as a one-item list; items of different lists may share the extreme value
 LMin(a) == IF a.items = {} THEN L({}, {}) ELSE OneOf({Single(it) : it \in {x \in a.items : ItemVal(x) = MinVal(a)}})
 LMax(a) == IF a.items = {} THEN L({}, {}) ELSE OneOf({Single(it) : it \in {x \in a.items : ItemVal(x) = MaxVal(a)}})
@@ -184,7 +184,8 @@ Binary(op, x, y) ==
   ELSE IF IsBad(x) THEN x ELSE IF IsBad(y) THEN y
   ELSE IF x.t = "list" \/ y.t = "list" THEN
          \* binary operations with a list are outside the coercion ladder
-         IF op \in {"+", "-"} /\ x.t = "list" /\ y.t = "int" THEN LShift(x, IF op = "+" THEN y.v ELSE 0 - y.v)
+         IF op = "-" /\ x.t = "list" /\ y.t = "int" /\ y.v = MIN32 THEN Unspec("list - MIN32")      \* (the negation has no 32-bit value)
+         ELSE IF op \in {"+", "-"} /\ x.t = "list" /\ y.t = "int" THEN LShift(x, IF op = "+" THEN y.v ELSE 0 - y.v)
          ELSE IF op \in {"&&", "||"} /\ (x.t # "list" \/ y.t # "list") THEN
                  B(IF op = "&&" THEN Truthy(x) /\ Truthy(y) ELSE Truthy(x) \/ Truthy(y))
          ELSE IF x.t = "list" /\ y.t = "list" THEN ListOp(op, x, y)
